@@ -662,6 +662,27 @@ func checkCommitQuorum(c *simkit.Ctx, net *world.VbftNet, sigBase string) {
 				extra = append(extra, cand{m.Hash, m.ForEmpty})
 			}
 		}
+		// hashes of this proposer's proposals that OTHER nodes hold for the round: a node that
+		// restarted can hold endorsements (which carry no hash) for a proposal it has not got yet
+		for _, o := range net.Nodes {
+			if o == nd || o.Srv == nil {
+				continue
+			}
+			ops, _, _ := o.Srv.SimCandidate(cur)
+			for _, p := range ops {
+				if p.Proposer != proposer {
+					continue
+				}
+				if !known[p.BlockHash] {
+					known[p.BlockHash] = true
+					extra = append(extra, cand{p.BlockHash, false})
+				}
+				if p.HasEmpty && !known[p.EmptyHash] {
+					known[p.EmptyHash] = true
+					extra = append(extra, cand{p.EmptyHash, true})
+				}
+			}
+		}
 		nProp := len(cands)
 		cands = append(cands, extra...)
 		for ci, cd := range cands {
